@@ -137,8 +137,14 @@ pub async fn send_appointment(
                 r.start_block,
                 r.signature.clone(),
             );
+            // The signature is just a string sent by the tower, it may not even be decodable.
             let recovered_id = TowerId(
-                cryptography::recover_pk(&receipt.to_vec(), &receipt.signature().unwrap()).unwrap(),
+                cryptography::recover_pk(&receipt.to_vec(), &receipt.signature().unwrap())
+                    .map_err(|e| {
+                        RequestError::DeserializeError(format!(
+                            "Cannot recover the tower id from the appointment receipt. Error: {e}"
+                        ))
+                    })?,
             );
             if recovered_id == tower_id {
                 Ok((r, receipt))
